@@ -254,3 +254,30 @@ func init() {
 func init() {
 	reg(ndPkg+".Thorough", func(fr *frame, a []value) value { return fr.i.eng.Thorough })
 }
+
+func init() {
+	N := ndPkg + "."
+	reg(N+"NearDec", func(fr *frame, a []value) value {
+		c := fr.ctx()
+		x, y := decT(a[0]), decT(a[1])
+		if fr.ideal() {
+			return boolVal(c, c.Eq(x, y))
+		}
+		return boolVal(c, c.Le(c.Abs(c.Sub(x, y)), decT(a[2])))
+	})
+	reg(N+"LeqDec", func(fr *frame, a []value) value {
+		c := fr.ctx()
+		x, y := decT(a[0]), decT(a[1])
+		if fr.ideal() {
+			return boolVal(c, c.Le(x, y))
+		}
+		return boolVal(c, c.Le(x, c.Add(y, decT(a[2]))))
+	})
+}
+
+func init() {
+	reg(ndPkg+".Overflow", func(fr *frame, a []value) value {
+		fr.i.eng.OverflowChecks = a[0].(bool)
+		return nil
+	})
+}
